@@ -12,6 +12,7 @@ import (
 	"sync"
 	"time"
 
+	"github.com/sheerbytes/sheerbytes/internal/transfer"
 	"github.com/sheerbytes/sheerbytes/internal/verifhook"
 	vk "github.com/sheerbytes/sheerbytes/internal/verifkit"
 )
@@ -30,6 +31,9 @@ type xferCase struct {
 	TSeed  uint64     `json:"tree_seed"`
 	Jitter int        `json:"jitter_us"`
 	History string    `json:"history,omitempty"` // C03 resume histories
+	// Preexist: the output directory already holds other content at some of the
+	// manifest's file paths before the transfer: "" | longer | shorter | samelen
+	Preexist string `json:"preexist,omitempty"`
 }
 
 var chunkSizes = []uint32{1, 7, 64, 1000, 4096, 65536, 1 << 20}
@@ -132,6 +136,9 @@ func genXferCases(e *Env, n int, quicOnly bool) []xferCase {
 		if r.Intn(2) == 0 {
 			c.Jitter = 50 + r.Intn(400)
 		}
+		if r.Intn(4) == 0 {
+			c.Preexist = []string{"longer", "shorter", "samelen"}[r.Intn(3)]
+		}
 		cases = append(cases, c)
 	}
 	return cases
@@ -167,6 +174,9 @@ func runXferCase(e *Env, lp *vk.ListenerPool, c xferCase, keep bool) xferOutcome
 	}
 	cfg := c.Cfg
 	cfg.SendDeco = &vk.Deco{}
+	if c.Preexist != "" {
+		prepopulate(outDir, tree, cfg, src, c.Preexist, c.TSeed)
+	}
 	if inv := curInv; inv != nil && cfg.Resume {
 		if m, _, _, prefix, err := vk.BuildManifest(cfg, src); err == nil {
 			baseDir := outDir
@@ -195,13 +205,168 @@ func runXferCase(e *Env, lp *vk.ListenerPool, c xferCase, keep bool) xferOutcome
 	return out
 }
 
+// prepopulate writes foreign content (no resume metadata) at every second file
+// path of the tree inside outDir, as left over from an earlier, different
+// version of the tree.
+func prepopulate(outDir string, tree vk.Tree, cfg vk.XferCfg, src, mode string, seed uint64) {
+	_, _, _, prefix, err := vk.BuildManifest(cfg, src)
+	if err != nil {
+		return
+	}
+	rr := vk.NewRng(seed ^ 0xabc)
+	k := 0
+	for _, en := range tree.Entries {
+		if en.Dir {
+			continue
+		}
+		k++
+		if k%2 == 0 {
+			continue
+		}
+		p := filepath.Join(outDir, filepath.FromSlash(prefix+en.Rel))
+		n := en.Size
+		switch mode {
+		case "longer":
+			n = en.Size + 1 + int64(rr.Intn(300))
+		case "shorter":
+			n = en.Size / 2
+		}
+		_ = os.MkdirAll(filepath.Dir(p), 0755)
+		_ = os.WriteFile(p, rr.Bytes(int(n)), 0644)
+	}
+}
+
 func caseSample(o xferOutcome) map[string]any {
 	return map[string]any{"case": o.Case, "entries": len(o.Tree.Entries), "files": o.Tree.FileCount(),
 		"max_chunks": o.Tree.MaxChunks(int64(o.Case.Cfg.ChunkSize)), "result": o.Res.Summary()}
 }
 
+// bigFileCase transfers the tail of a sparse file just over 4 GiB (resumed
+// state: every chunk below 4 GiB already marked and present) with the
+// production chunk size, and compares the regions where an offset that wrapped
+// at 32 bits would have read or written.
+func bigFileCase(e *Env, lp *vk.ListenerPool, variant int) {
+	const cs = 4 << 20
+	size := int64(4)<<30 + 2*cs + 12345
+	total := uint32((size + cs - 1) / cs)
+	base := vk.TempDir(e.Work, "big-")
+	defer os.RemoveAll(base)
+	src := filepath.Join(base, "srcroot")
+	_ = os.MkdirAll(src, 0755)
+	srcFile := filepath.Join(src, "big.bin")
+	mk := func(p string, withTail bool) error {
+		f, err := os.Create(p)
+		if err != nil {
+			return err
+		}
+		defer f.Close()
+		if err := f.Truncate(size); err != nil {
+			return err
+		}
+		buf := make([]byte, cs)
+		// distinctive first two chunks (a wrapped offset lands here) ...
+		for i := int64(0); i < 2; i++ {
+			vk.FillContent(77, "big.bin", i*cs, buf)
+			if _, err := f.WriteAt(buf, i*cs); err != nil {
+				return err
+			}
+		}
+		if withTail {
+			// ... and the three chunks at and beyond 4 GiB
+			for i := int64(total) - 3; i < int64(total); i++ {
+				n := int64(cs)
+				if i*cs+n > size {
+					n = size - i*cs
+				}
+				vk.FillContent(77, "big.bin", i*cs, buf[:n])
+				if _, err := f.WriteAt(buf[:n], i*cs); err != nil {
+					return err
+				}
+			}
+		}
+		return nil
+	}
+	if err := mk(srcFile, true); err != nil {
+		e.R.Inconcl("bigfile: " + err.Error())
+		return
+	}
+	cfg := vk.XferCfg{Transport: "quic", Conns: 1 + variant%2, Streams: 1 + variant%3, ChunkSize: cs, Resume: true, NoRootDir: true, ScanPaths: true, WatchdogMs: 60000}
+	m, _, _, prefix, err := vk.BuildManifest(cfg, src)
+	if err != nil || len(m.Items) < 2 {
+		e.R.Inconcl("bigfile: scan failed")
+		return
+	}
+	outDir := filepath.Join(base, "out")
+	outFile := filepath.Join(outDir, filepath.FromSlash(prefix), "big.bin")
+	_ = os.MkdirAll(filepath.Dir(outFile), 0755)
+	if err := mk(outFile, false); err != nil {
+		e.R.Inconcl("bigfile: " + err.Error())
+		return
+	}
+	var item = m.Items[len(m.Items)-1]
+	for _, it := range m.Items {
+		if !it.IsDir {
+			item = it
+		}
+	}
+	sc, err := transfer.CreateSidecar(transfer.SidecarPath(outDir, "", transfer.VerifCoreSidecarID(item)), item.ID, size, cs)
+	if err != nil {
+		e.R.Inconcl("bigfile: sidecar: " + err.Error())
+		return
+	}
+	for i := uint32(0); i < total-3; i++ {
+		sc.MarkComplete(i)
+	}
+	if err := sc.Flush(); err != nil {
+		e.R.Inconcl("bigfile: sidecar flush: " + err.Error())
+		return
+	}
+	cfg.SendDeco = &vk.Deco{}
+	res := vk.RunTransfer(context.Background(), cfg, lp, src, outDir)
+	e.R.Eval()
+	cs64 := int64(cs)
+	caseSpec := map[string]any{"kind": "bigfile", "size": size, "cs": cs, "streams": cfg.Streams, "conns": cfg.Conns, "missing_chunks": []uint32{total - 3, total - 2, total - 1}}
+	if !res.BothOK() {
+		e.R.NoVerd()
+		e.R.Count("bigfile_no_double_success")
+		e.R.SetExtra("bigfile_last_result", res.Summary())
+		return
+	}
+	e.R.Count("double_success")
+	e.R.Count("bigfile_double_success")
+	e.R.Distinct(fmt.Sprintf("bigfile/s%d/c%d", cfg.Streams, cfg.Conns))
+	st, err := os.Stat(outFile)
+	if err != nil || st.Size() != size {
+		e.R.Violate("digest-mismatch:file-over-4GiB", fmt.Sprintf("both sides succeeded but the output size is %v (want %d)", st, size), caseSpec, nil)
+		return
+	}
+	cmp := func(off, n int64) string {
+		a := make([]byte, n)
+		b := make([]byte, n)
+		fa, _ := os.Open(srcFile)
+		fb, _ := os.Open(outFile)
+		defer fa.Close()
+		defer fb.Close()
+		_, _ = fa.ReadAt(a, off)
+		_, _ = fb.ReadAt(b, off)
+		for i := range a {
+			if a[i] != b[i] {
+				return fmt.Sprintf("first difference at byte offset %d", off+int64(i))
+			}
+		}
+		return ""
+	}
+	for _, reg := range [][2]int64{{0, 3 * cs64}, {int64(total-4) * cs64, size - int64(total-4)*cs64}} {
+		if d := cmp(reg[0], reg[1]); d != "" {
+			e.R.Violate("digest-mismatch:file-over-4GiB", "both sides succeeded for a file of 4 GiB + 8 MiB + 12345 bytes but the output differs from the source: "+d, caseSpec, nil)
+			return
+		}
+	}
+	e.R.Sample(map[string]any{"case": caseSpec, "result": res.Summary()})
+}
+
 func runC01(e *Env) {
-	n := e.Pick(240, 4000)
+	n := e.Pick(1000, 6000)
 	cases := genXferCases(e, n, false)
 	lp, err := vk.NewListenerPool(16, 5*time.Second)
 	if err != nil {
@@ -241,15 +406,24 @@ func runC01(e *Env) {
 		okByTransport[fmt.Sprintf("%s-c%d", c.Cfg.Transport, min(c.Cfg.Conns, 2))]++
 		mu.Unlock()
 		if o.Tree.MaxChunks(int64(c.Cfg.ChunkSize)) >= 2 {
-			e.R.Distinct(c.Cfg.Key() + "/" + c.Shape)
+			e.R.Distinct(c.Cfg.Key() + "/" + c.Shape + "/pre=" + c.Preexist)
+		}
+		if c.Preexist != "" {
+			e.R.Count("double_success_with_preexisting_output:" + c.Preexist)
 		}
 		e.R.Count("double_success")
 		if len(o.Diff) > 0 {
 			key := "digest-mismatch:" + c.Cfg.Transport + ":" + c.Shape
+			if c.Preexist != "" {
+				key = "digest-mismatch:preexisting-output-" + c.Preexist
+			}
 			e.R.Violate(key, fmt.Sprintf("both endpoints returned nil but the output tree differs from the source: %v", o.Diff), c, map[string]any{"diff": o.Diff, "tree": o.Tree})
 		}
 		e.R.Sample(caseSample(o))
 	})
+	for v := 0; v < e.Pick(2, 6); v++ {
+		bigFileCase(e, lp, v)
+	}
 	orders := arr.orders()
 	e.R.SetExtra("distinct_arrival_orders", len(orders))
 	e.R.SetExtra("double_success_by_transport", okByTransport)
